@@ -126,6 +126,103 @@ func ruleEscapeTables(p *Program, r *Report) {
 			}
 			return true
 		})
+		// the same table written as data instead of cases:
+		//  (a) two parallel constant strings, `k := strings.IndexByte(letters, c)` … `values[k]`
+		//  (b) a map literal with constant keys and values, indexed in this function
+		idxOf := map[types.Object]string{} // k -> letters
+		ast.Inspect(fd.Body, func(n ast.Node) bool {
+			as, ok := n.(*ast.AssignStmt)
+			if !ok || len(as.Lhs) != 1 || len(as.Rhs) != 1 {
+				return true
+			}
+			call, ok := as.Rhs[0].(*ast.CallExpr)
+			if !ok || len(call.Args) != 2 {
+				return true
+			}
+			sel, ok := call.Fun.(*ast.SelectorExpr)
+			if !ok || !(sel.Sel.Name == "IndexByte" || sel.Sel.Name == "IndexRune") {
+				return true
+			}
+			letters, ok := ConstString(spk.TypesInfo, call.Args[0])
+			if !ok {
+				return true
+			}
+			if id, ok := as.Lhs[0].(*ast.Ident); ok {
+				if o := spk.TypesInfo.ObjectOf(id); o != nil {
+					idxOf[o] = letters
+				}
+			}
+			return true
+		})
+		ast.Inspect(fd.Body, func(n ast.Node) bool {
+			ix, ok := n.(*ast.IndexExpr)
+			if !ok {
+				return true
+			}
+			if id, ok := ix.Index.(*ast.Ident); ok {
+				if letters, ok := idxOf[spk.TypesInfo.ObjectOf(id)]; ok {
+					if values, ok := ConstString(spk.TypesInfo, ix.X); ok {
+						for i := 0; i < len(letters) && i < len(values); i++ {
+							readerCases[rune(letters[i])] = true
+							reader[rune(letters[i])] = rune(values[i])
+						}
+						if len(letters) != len(values) {
+							r.Undecided("reader-tables", fmt.Sprintf("the parallel escape tables have different lengths (%d letters, %d values)", len(letters), len(values)), ix.Pos())
+						}
+					}
+				}
+				return true
+			}
+			// (b) m[c] where m is a variable initialised with a map literal
+			id, ok := ix.X.(*ast.Ident)
+			if !ok {
+				return true
+			}
+			obj := spk.TypesInfo.ObjectOf(id)
+			if obj == nil {
+				return true
+			}
+			if _, isMap := obj.Type().Underlying().(*types.Map); !isMap {
+				return true
+			}
+			for _, f := range spk.Syntax {
+				ast.Inspect(f, func(m ast.Node) bool {
+					var lhs []ast.Expr
+					var rhs []ast.Expr
+					switch d := m.(type) {
+					case *ast.ValueSpec:
+						for _, nm := range d.Names {
+							lhs = append(lhs, nm)
+						}
+						rhs = d.Values
+					case *ast.AssignStmt:
+						lhs, rhs = d.Lhs, d.Rhs
+					default:
+						return true
+					}
+					for i, l := range lhs {
+						li, ok := l.(*ast.Ident)
+						if !ok || i >= len(rhs) || spk.TypesInfo.ObjectOf(li) != obj {
+							continue
+						}
+						if cl, ok := rhs[i].(*ast.CompositeLit); ok {
+							for _, el := range cl.Elts {
+								if kv, ok := el.(*ast.KeyValueExpr); ok {
+									k, ok1 := runeConst(spk.TypesInfo, kv.Key)
+									v, ok2 := runeConst(spk.TypesInfo, kv.Value)
+									if ok1 && ok2 {
+										readerCases[k] = true
+										reader[k] = v
+									}
+								}
+							}
+						}
+					}
+					return true
+				})
+			}
+			return true
+		})
 	})
 	if len(readerCases) < 8 {
 		r.Undecided("reader", fmt.Sprintf("only %d cases of the escape switch recognised", len(readerCases)), rpos)
